@@ -566,6 +566,12 @@ class _Wat:
             return f32_text(imm)
         if op == "f64.const":
             return f64_text(imm)
+        # an integer constant may be written signed or unsigned, in decimal or hex: one spelling per style
+        bits = 32 if op == "i32.const" else 64
+        if self.style == "folded":
+            return "0x%x" % (imm % (1 << bits))
+        if self.style == "inline" and imm < 0:
+            return str(imm + (1 << bits))
         return str(imm)
 
     def imm_text(self, n):
